@@ -154,9 +154,54 @@ def extract():
     # --- Thymus.train on windows of identical fingerprints, on several scales -------------------------------------
     trn = _train_probes(T, facts)
 
+    # --- TCell.inspect as a whole: anergy short-circuit, signal-2 sources and their precedence, streak bookkeeping ----
+    insp = _inspect_probes(T, BaselineProfile, TCell, facts)
+
     facts.update(respond=len(respond), downgrade=len(down), severity=len(sev), evaluate=len(ev), check=len(chk),
-                 train=len(trn))
-    return _render(lv, ac, s1, s2, respond, down, sev, ev, chk=chk, trn=trn), facts
+                 train=len(trn), inspect=len(insp))
+    return _render(lv, ac, s1, s2, respond, down, sev, ev, chk=chk, trn=trn, insp=insp), facts
+
+
+def _inspect_probes(T, BaselineProfile, TCell, facts):
+    """One `TCell.inspect` call from every combination of: anomaly streak before the call x repeated-anomaly threshold
+    (below / reaching / at thresholds 1 and 0), manual flag (None, empty string, a reason), canary accuracy (none, fine,
+    below the trained minimum, below one half), fingerprint (inside the baseline, one violation, three violations) for a
+    watcher that is not anergic, plus a slice for anergic watchers (false alarms at / above the threshold, threshold 0).
+    The watcher's state is handed to the public constructor.  Observed: level, action, both signals, number of violations,
+    the anergic mark of the response, and the anomaly streak afterwards."""
+    from fractions import Fraction as F
+    rows = []
+    kinds = {0: (F(15), F(1), F(3, 4)), 1: (F(15), F(7, 4), F(3, 4)), 3: (F(21), F(7, 4), F(1, 4))}
+    canaries = [None, F(1), F(5, 8), F(1, 4)]
+    flags = [(None, False), ("", False), ("operator", True)]
+    streaks = [(3, 0), (3, 1), (3, 2), (1, 0), (0, 0)]
+    combos = [(rep, k, 2, 0, fl, kind, ca) for (rep, k) in streaks for fl in flags for kind in kinds for ca in canaries]
+    combos += [(3, 2, an, cnt, fl, kind, F(1, 4)) for (an, cnt) in ((2, 2), (2, 3), (0, 0)) for fl in flags for kind in (0, 3)]
+    for rep_, k, an, cnt, (reason, truthy), kind, ca in combos:
+        val = None
+        try:
+            prof = BaselineProfile(agent_id="a", output_length_bounds=(10.0, 20.0), response_time_bounds=(0.5, 1.5),
+                                   confidence_bounds=(0.5, 1.0), error_rate_max=0.125,
+                                   valid_vocabulary_hashes={"v1", "v2"}, valid_structure_hashes={"s1"},
+                                   canary_accuracy_min=0.75)
+            try:
+                tc = TCell(profile=prof, repeated_anomaly_threshold=rep_, anergy_threshold=an, anomaly_count=k,
+                           anergy_count=cnt, manual_flag=reason)
+            except TypeError:                      # counters no longer constructor arguments: assign the public attributes
+                tc = TCell(profile=prof, repeated_anomaly_threshold=rep_, anergy_threshold=an)
+                tc.anomaly_count, tc.anergy_count, tc.manual_flag = k, cnt, reason
+            lm, tm, cm = kinds[kind]
+            r = tc.inspect(_peptide(T, lm, 0, tm, 0, cm, 0, 1, 1, 0, ca))
+            names = (LEVEL.get(getattr(r.threat_level, "name", None)), ACTION.get(getattr(r.action, "name", None)),
+                     SIG1.get(getattr(r.signal1, "name", None)), SIG2.get(getattr(r.signal2, "name", None)))
+            if all(names) and isinstance(tc.anomaly_count, int) and tc.anomaly_count >= 0:
+                val = f"({names[0]}, {names[1]}, {names[2]}, {names[3]}, {len(r.violations)}, {_b(bool(r.is_anergic))}, {tc.anomaly_count})"
+        except Exception:
+            val = None
+        if val is None:
+            facts["unknown"] += 1
+        rows.append((rep_, k, an, cnt, truthy, kind, None if ca is None else _q(ca), val))
+    return rows
 
 
 # numbers of the probes below are multiples of 1/256: exact as floats, exact as `Rat`
@@ -288,7 +333,7 @@ def _train_probes(T, facts):
     return rows
 
 
-def _render(lv, ac, s1, s2, respond, down, sev, ev, note="", chk=(), trn=()):
+def _render(lv, ac, s1, s2, respond, down, sev, ev, note="", chk=(), trn=(), insp=()):
     def lst(items, per_line=4):
         if not items:
             return "[]"
@@ -343,6 +388,14 @@ def _render(lv, ac, s1, s2, respond, down, sev, ev, note="", chk=(), trn=()):
     o.append("    (lenLo, lenHi, timeLo, timeHi, confLo, confHi, errMax, canaryMin) -/")
     o.append("def trainProbes : List (Nat × Int × List Int × Option (List Int)) := "
              + lst([f"({k}, {tol}, {ints(fp)}, {_opt(None if pr is None else ints(pr))})" for k, tol, fp, pr in trn], 1))
+    o.append("")
+    o.append("/-- one `TCell.inspect` call: (repeated-anomaly threshold, anomaly streak before, anergy threshold, false alarms on")
+    o.append("    record, manual flag truthy), (fingerprint: 0 = inside the probe baseline, 1 = one violation, 3 = three; canary accuracy")
+    o.append("    in 256ths) ↦ (level, action, signal 1, signal 2, number of violations, anergic mark, anomaly streak afterwards) -/")
+    o.append("def inspectProbes : List (((Int × Nat × Int × Nat × Bool) × (Nat × Option Int)) × "
+             "Option (Level × Action × Signal1 × Signal2 × Nat × Bool × Nat)) := "
+             + lst([f"((({r_}, {k}, {an}, {cnt}, {_b(fl)}), ({kind}, {'none' if ca is None else 'some ' + str(ca)})), {_opt(v)})"
+                    for r_, k, an, cnt, fl, kind, ca, v in insp], 1))
     o.append("")
     o.append("end Operon.Immune.Gen")
     return "\n".join(o) + "\n"
